@@ -458,8 +458,14 @@ def run_case(case):
         return [v for v in ctor_with_extras(case["type"], 0)[1] if v["case"]["ctor_extra"] == case["ctor_extra"]]
     if case.get("ctor_pair"):
         return ctor_pairs(case["type"], 0, only=case["ctor_pair"])[1]
+    if case.get("after_use"):
+        from checks import c13
+
+        c13.workout()
     _n, vs = check_controller(case["type"], case["controller"], 0, case["lenient"], case.get("unit"),
                               case.get("attached", False))
+    if case.get("after_use"):
+        vs = [dict(v, case=dict(v["case"], after_use=True), key=dict(v["key"], after_use=True)) for v in vs]
     return vs
 
 
@@ -479,6 +485,20 @@ def _task(t):
         vs = vs + vs2
         C.count(r, "lenient_loads", n2)
         r["sample"] = {"type": t[1], "defaults_and_ctor": True}
+    elif t[0] == "after_use":
+        # the domains are enforced the same way AFTER the library has been used the way the other checks use it (files of
+        # every fixture loaded and saved, MetaModule controllers mapped onto every kind of target, lenient loads ...)
+        from checks import c13
+
+        c13.workout()
+        n, vs = 0, []
+        for tkey in t[1]:
+            for c in spec.types()[tkey].controllers:
+                for u in (list(c.ranges) if c.kind == "dependent" else [None]):
+                    k, v = check_controller(tkey, c.name, t[2], False, u, False)
+                    n += k
+                    vs += [dict(x, case=dict(x["case"], after_use=True), key=dict(x["key"], after_use=True)) for x in v]
+        C.count(r, "after_use", n)
     else:
         _k, tkey, cname, seed, lenient, unit, attached = t
         n, vs = check_controller(tkey, cname, seed, lenient, unit, attached)
@@ -506,6 +526,9 @@ def run(ctx):
                     tasks.append(("ctl", tkey, c.name, ctx.seed, lenient, u, False))
                 tasks.append(("ctl", tkey, c.name, ctx.seed, False, u, True))
         tasks.append(("ctorpairs", tkey, ctx.seed))
+    tkeys = list(spec.types())
+    for g in range(8):
+        tasks.insert(g * 50, ("after_use", tkeys[g::8], ctx.seed))
     agg = C.Agg()
     for r in ctx.pmap(_task, tasks, chunksize=4):
         agg.merge(r)
@@ -522,6 +545,6 @@ def run(ctx):
                 "as every ordered pair, strict and lenient, attribute and constructor path; each (controller, mode, "
                 "sequence) is distinct by construction; non-trivial = sequences beyond the bare default read",
         "exhaustive": True,
-        "first_use_comparisons": n_fu, "lenient_loads_of_out_of_range_files": agg.counters.get("lenient_loads", 0), "types": len(spec.types()), "controllers": nctl, "controller_mode_tasks": agg.counters.get("controller_modes", 0), "constructor_keyword_pairs": agg.counters.get("ctor_pairs", 0),
+        "first_use_comparisons": n_fu, "lenient_loads_of_out_of_range_files": agg.counters.get("lenient_loads", 0), "types": len(spec.types()), "controllers": nctl, "controller_mode_tasks": agg.counters.get("controller_modes", 0), "strict_sequences_repeated_after_use": agg.counters.get("after_use", 0), "constructor_keyword_pairs": agg.counters.get("ctor_pairs", 0),
         "samples": agg.samples,
     }
